@@ -107,11 +107,13 @@ def extract(config="default", verbose=True):
     """Return {crate_file_stem: path} of fact files for the current sources under `config`."""
     ensure_driver()
     os.makedirs(CACHE, exist_ok=True)
-    lock = open(os.path.join(CACHE, "lock"), "w")
+    # one lock per source root: target and fact directories are per source root, so extractions of different trees
+    # (the self-test's scratch worktrees) may run in parallel
+    rtag = "repo" if src_root() == "/repo" else hashlib.sha256(src_root().encode()).hexdigest()[:8]
+    lock = open(os.path.join(CACHE, "lock" if rtag == "repo" else f"lock-{rtag}"), "w")
     fcntl.flock(lock, fcntl.LOCK_EX)
     try:
         h = source_hash()
-        rtag = "repo" if src_root() == "/repo" else hashlib.sha256(src_root().encode()).hexdigest()[:8]
         facts_dir = os.path.join(CACHE, "facts", f"{h}-{rtag}-{config}")
         marker = os.path.join(facts_dir, "OK")
         if not os.path.exists(marker):
